@@ -353,9 +353,7 @@ var errIterCap = errors.New("verif: iteration cap reached")
 
 func (c *countingFP) ToInput(vm map[string]ast.RegoVersion) (rules.Input, error) {
 	c.iters++
-	if c.iters == 2 {
-		c.snapshot[2] = c.files()
-	}
+	c.snapshot[c.iters] = c.files() // the contents linted in this iteration
 	if c.iters > c.cap {
 		return rules.Input{}, errIterCap
 	}
@@ -429,6 +427,12 @@ func runFix(files map[string]string, rulesOn []string, vmap map[string]ast.RegoV
 
 // runFixReport: as runFix, also returning the titles of the fixes Fixer.Fix says it applied, per file
 func runFixReport(files map[string]string, rulesOn []string, vmap map[string]ast.RegoVersion, capIters int, deadline time.Duration) (final map[string]string, snap2 map[string]string, iters int, errClass, errMsg string, applied map[string][]string) {
+	final, snap2, iters, errClass, errMsg, applied, _ = runFixTrace(files, rulesOn, vmap, capIters, deadline)
+	return
+}
+
+// runFixTrace: as runFixReport, also returning the contents linted in every iteration (trace[0] = the original)
+func runFixTrace(files map[string]string, rulesOn []string, vmap map[string]ast.RegoVersion, capIters int, deadline time.Duration) (final map[string]string, snap2 map[string]string, iters int, errClass, errMsg string, applied map[string][]string, trace []map[string]string) {
 	mem := fileprovider.NewInMemoryFileProvider(copyMap(files))
 	cfp := &countingFP{InMemoryFileProvider: mem, cap: capIters, snapshot: map[int]map[string]string{}}
 	cfp.files = func() map[string]string {
@@ -476,7 +480,12 @@ func runFixReport(files map[string]string, rulesOn []string, vmap map[string]ast
 			}
 		}
 	case <-time.After(deadline + 30*time.Second):
-		return cfp.files(), cfp.snapshot[2], cfp.iters, "deadline", "hard deadline", nil
+		return cfp.files(), cfp.snapshot[2], cfp.iters, "deadline", "hard deadline", nil, nil
+	}
+	for k := 1; k <= cfp.iters; k++ {
+		if sn, ok := cfp.snapshot[k]; ok {
+			trace = append(trace, sn)
+		}
 	}
 	final = cfp.files()
 	snap2 = cfp.snapshot[2]
